@@ -13,18 +13,19 @@ PROP = "C06"
 def run(ctx):
     thorough = ctx.tier == "thorough"
     ctx.rule = ("dimension-wise histories: dim 2-3 (thorough 2-4), (lmin,lmax) in {(1,2),(1,3),(2,3),(2,4)}, versions 2,3,6,7,8, "
-                "rebalancing on/off with safety factors {0,1/8,1/4,0.1}, boundary on/off, margins {0,1/2,0.9,1}, dyadic boxes, "
+                "rebalancing on/off with safety factors {0,1/8,1/4,0.1}, boundary on/off, margins {0,1/2,0.9,1,None=default} (expected margin = the value passed to the constructor), dyadic boxes, "
                 "3-6 (thorough 4-12) refine() steps with scripted dyadic benefits (single picks, ties, threshold values, zeros, "
-                "whole-dimension and many-interval selections); model and implementation compared after every refine(); "
+                "whole-dimension and many-interval selections, varied non-zero benefits at margin 0); every second history from the directed family deepen (rebalancing on, sf in {0,0.1}, margin 1, deepest intervals + neighbours of one dimension refined repeatedly: rotations and lmax raises by >1 in one step); model and implementation compared after every refine(); "
                 "a case is one history, distinct by configuration + benefit script, non-trivial if at least one interval was split")
     drv = ctx.driver("drv_c06")
-    n = 240 if not thorough else 1500
+    n = 320 if not thorough else 2400
     budget = 75 if not thorough else 560
     first_break = None
     for k in range(n):
         if ctx.time_left(budget) < 0:
             break
-        cfg = dw.gen_config(ctx, thorough, False)
+        # every second history is from the directed family "deepen" (see dimwise_common.gen_deepen)
+        cfg = dw.gen_config(ctx, thorough, False, family=("deepen" if k % 2 == 1 else None))
         h = dw.History(ctx, drv, cfg, PROP, check_points=False)
         try:
             ok = h.run()
@@ -32,6 +33,7 @@ def run(ctx):
             import traceback
             ctx.corr_break("C06/harness-exception", h.snapshot(), traceback.format_exc()[-3000:])
             ok = False
+        ctx.count("family_%s" % cfg.get("family", "random"))
         for key in ("dim", "version", "margin", "sf", "rebalancing", "boundary"):
             ctx.count("%s_%s" % (key, cfg[key]))
         ctx.count("levels_%d_%d" % (cfg["lmin"], cfg["lmax"]))
